@@ -47,6 +47,9 @@ def check(ctx, tier):
     tk.purity("C08.p", [ctx.func(q) for q in ['arrayfunctions.concatenate', 'arrayfunctions.where', 'arrayfunctions.zeros_like', 'arrayfunctions.ones_like', 'arrayfunctions.empty_like', 'raggedarray.RaggedArray.nonzero', 'raggedarray.RaggedArray._as_padded_matrix', 'raggedarray.indexablearray.IndexableArray.subset', 'raggedarray.raggedslice.ragged_slice']], "the operation does not write into its operands' buffers", content_only=True)
     from .. import hazards as _hz, scopes as _sc
     _hz.generic(ctx, tk, "C08.z", _sc.scope(tk, "C08", depth=1))
+    # the array functions read .size / the memos of the selections they are given: a derived object must not inherit them
+    _hz.h64_memo_handed_to_a_derived_object(ctx, tk, "C08.z/H64", [f_ for q_, f_ in sorted(ctx.program.funcs.items())
+                                                                    if q_.startswith("raggedarray.base.RaggedBase.") and f_ not in _sc.scope(tk, "C08", depth=1)])
     return {}
 
 
